@@ -67,6 +67,8 @@ function mk (spec) {
       return res
     },
     inflight: 16,
+    thoroughWorkers: spec.thoroughWorkers,
+    thoroughHeapMB: spec.thoroughHeapMB,
     rule: spec.rule + (spec.families ? ' [grammar families of this check, see DESIGN section 9: ' + spec.families.join(',') + (spec.extra ? ' + the property\'s own families' : '') + ']' : ''),
     explanation: spec.explanation,
     assumptions: spec.assumptions
